@@ -489,7 +489,8 @@ async def glued_async_case(enc, mac, flip_at):
             return True
 
         def session_started(self):
-            self.chan.write(bytes(5000))        # crosses the server's rekey_bytes: the server starts the exchange
+            self.chan.write(bytes(5000))        # crosses the server's rekey_bytes ...
+            self.chan.write(b'tail')            # ... so that this send starts the exchange
 
     class Srv(asyncssh.SSHServer):
         def begin_auth(self, u):
